@@ -117,7 +117,7 @@ pub open spec fn usable(s: Session, channel: SecureChannel) -> bool {
 SPEC = {
     'is_session_timed_out': ('r', '''        // (the time-out decision itself is a floating point comparison, not modelled)
         ensures r is Err ==> is_fault(r->Err_0, *request_header),'''),
-    'is_session_activated': ('r', '''        ensures (r is Ok) == usable(session.v.v, self.secure_channel.v.v),
+    'is_session_activated': ('r', '''        ensures (r is Ok) ==> usable(session.v.v, self.secure_channel.v.v),      // "carried out only if .."
             r is Err ==> is_fault(r->Err_0, *request_header),'''),
     'validate_service_request': ('r', '''        requires forall|s: Arc<RwLock<Session>>, m: Arc<RwLock<SessionManager>>| action.requires((s, m)),
         ensures ({
